@@ -177,7 +177,56 @@ def part_a():
             guard = any(t.replace(" ", "") == "ifnotisinstance(H,Namespace):" for t in texts) and \
                 any(t.startswith("raise TemplateRuntimeError") for t in texts)
     dyn = sorted(set(dyn))
-    return out, dyn, guard
+    return out, dyn, guard, nsref_guard_covers_every(tree)
+
+
+def nsref_guard_covers_every(tree) -> bool:
+    """visit_Assign emits the isinstance guard inside `for <t> in node.find_all(nodes.NSRef)`, for `<t>.name`, and the only way
+    to skip an iteration is `if <t>.name in <seen>: continue` where <seen> only ever receives `<t>.name` (one guard per
+    distinct ref name — never fewer)"""
+    fn = next((f for f in ast.walk(tree) if isinstance(f, ast.FunctionDef) and f.name == "visit_Assign"), None)
+    if fn is None:
+        return False
+    for loop in ast.walk(fn):
+        if not (isinstance(loop, ast.For) and isinstance(loop.target, ast.Name) and isinstance(loop.iter, ast.Call)
+                and isinstance(loop.iter.func, ast.Attribute) and loop.iter.func.attr == "find_all"
+                and dotted(loop.iter.func.value) == "node" and [ast.unparse(a) for a in loop.iter.args] == ["nodes.NSRef"]
+                and not loop.iter.keywords):
+            continue
+        t = loop.target.id
+        texts = []
+        for c in ast.walk(loop):
+            if isinstance(c, ast.Call) and isinstance(c.func, ast.Attribute) and c.func.attr in ("write", "writeline") and c.args:
+                fr = fragment_of(c.args[0])
+                if fr:
+                    texts.append((fr[0].replace(" ", ""), fr[1]))
+        guard_here = any(tx == "ifnotisinstance(H,Namespace):" and holes == ["ref"] for tx, holes in texts)
+        ref_from_t = any(isinstance(a, ast.Assign) and ast.unparse(a.targets[0]) == "ref"
+                         and ast.unparse(a.value) == f"frame.symbols.ref({t}.name)" for a in ast.walk(loop))
+        # exits of the loop body: only `continue` under `if <t>.name in S`, no break / return
+        if any(isinstance(x, (ast.Break, ast.Return)) for x in ast.walk(loop)):
+            return False
+        seen_names = set()
+        ok = True
+        for st in ast.walk(loop):
+            if isinstance(st, ast.If) and any(isinstance(x, ast.Continue) for x in ast.walk(st)):
+                test = " ".join(ast.unparse(st.test).split())
+                if test.startswith(f"{t}.name in ") and test[len(f"{t}.name in "):].isidentifier() and not st.orelse \
+                        and len(st.body) == 1 and isinstance(st.body[0], ast.Continue):
+                    seen_names.add(test[len(f"{t}.name in "):])
+                else:
+                    ok = False
+        n_cont = sum(isinstance(x, ast.Continue) for x in ast.walk(loop))
+        n_if_cont = sum(1 for st in ast.walk(loop) if isinstance(st, ast.If) and any(isinstance(x, ast.Continue) for x in ast.walk(st)))
+        if n_cont != n_if_cont:
+            ok = False
+        for sname in seen_names:      # the `seen` set only ever receives <t>.name
+            for c in ast.walk(fn):
+                if isinstance(c, ast.Call) and isinstance(c.func, ast.Attribute) and dotted(c.func.value) == sname:
+                    if not (c.func.attr == "add" and [ast.unparse(a) for a in c.args] == [f"{t}.name"]):
+                        ok = False
+        return bool(guard_here and ref_from_t and ok)
+    return False
 
 
 def dotted(n):
@@ -271,7 +320,7 @@ def part_b():
 
 
 def gen():
-    a_rows, dyn, guard = part_a()
+    a_rows, dyn, guard, guard_every = part_a()
     b_rows = part_b()
     L = [HEADER, "namespace JinjaV.Gen.CtxWrites\n",
          "inductive AClass where\n  | " + " | ".join(A_CLASSES) + "\n  deriving Repr, DecidableEq\n",
@@ -286,6 +335,9 @@ def gen():
     L.append("]\n")
     L.append("/-- READ: visit_Assign guards every NSRef target with `if not isinstance(ref, Namespace): raise TemplateRuntimeError` -/")
     L.append(f"def nsrefGuarded : Bool := {lbool(guard)}\n")
+    L.append("/-- READ: that guard is emitted inside `for nsref in node.find_all(nodes.NSRef)` for `nsref.name`, skipping only names already "
+             "guarded: it covers EVERY namespace ref of a (tuple) target -/")
+    L.append(f"def nsrefGuardCoversEvery : Bool := {lbool(guard_every)}\n")
     L.append("/-- READ (informational): write/writeline calls whose argument is not a literal (visitor, argument) -/")
     L.append("def dynamicFragments : List (String × String) := " + llist(f"({lstr(a)}, {lstr(b)})" for a, b in dyn) + "\n")
     L.append("/-- READ from runtime.py and environment.py: every attribute/item store, del, setattr and mutating method call -/")
@@ -297,9 +349,9 @@ def gen():
 
 
 if __name__ == "__main__":
-    a, d, g = part_a()
+    a, d, g, ge = part_a()
     for r in a:
         print("A", r[0], "|", r[1][:50], "|", r[2], "|", r[3], "|", r[4])
-    print("guard", g, "dynamic", len(d))
+    print("guard", g, "covers every", ge, "dynamic", len(d))
     for r in part_b():
         print("B", *r)
